@@ -167,6 +167,8 @@ class CVRPTWEnv(CVRPEnv):
 
     @staticmethod
     def check_solution_validity(td: TensorDict, actions: torch.Tensor) -> None:
+        # the last route implicitly returns to the depot: make the return explicit so that it is checked as well
+        actions = torch.cat((actions, torch.zeros_like(actions[:, :1])), dim=1)
         CVRPEnv.check_solution_validity(td, actions)
         batch_size = td["locs"].shape[0]
         # distances to depot
